@@ -138,6 +138,25 @@ EXPLANATION = ("Models shared with C11 (Model/Retro.v, Pairwise.v, RetroInit.v);
                'heapq / Generator calls, `Plate(screen, v)`, `s.sample_mapping[0]`, `s.sample_names != n`, the Screen(...) constructor '
                'templates (construct = the plate-uniform check; the constructor is linked by C01 / C12). ')
 
+# ---- wave 6 of the source link: the constructors of the shipped generators / smoothers (Generated/SrcInits.v, Proofs/C13Source_Init_*.v) ----
+THEOREMS.update({
+    "C13_model_is_source_sparse_cover_init": "the translated SparseCoverPlateGenerator.__init__ stores reveal_single_treatment_experiments: the flag its translated method reads is the constructor argument",
+    "C13_model_is_source_pairwise_init": "the translated PairwisePlateGenerator.__init__ stores (subset_size, anchor_size) - not swapped, not changed",
+    "C13_model_is_source_plate_permutation_init": "the translated PlatePermutationPlateGenerator.__init__ stores force_include_plate_names (default None, checked against the signature)",
+    "C13_model_is_source_sample_segregating_init": "the translated SampleSegregatingPermutationPlateGenerator.__init__ stores max_plate_size",
+    "C13_model_is_source_merge_min_init": "the translated MergeMinPlateSmoother.__init__ stores min_size",
+    "C13_model_is_source_merge_top_bottom_init": "the translated MergeTopBottomPlateSmoother.__init__ stores n_iterations",
+    "C13_model_is_source_fixed_size_init": "the translated FixedSizeSmoother.__init__ stores plate_size",
+    "C13_model_is_source_nplate_init": "the translated NPlatePerCellLineSmoother.__init__ stores min_n_cell_line_plates",
+    "C13_model_is_source_ensemble_init": "the translated BatchieEnsemblePlateSmoother.__init__ stores (min_size, n_iterations, min_n_cell_line_plates); it validates nothing",
+    "C13_source_constructed_merge_min": "translated __init__ composed with the translated _smooth_plates: a MergeMin smoother constructed with min_size is the model merge_min min_size (sufficient fuel)",
+    "C13_source_constructed_ensemble": "translated __init__ composed with the translated _smooth_plates: the ensemble constructed with (ms, n, m) is the model ensemble true ms n m",
+})
+EXPLANATION += ("  CONSTRUCTORS: the __init__ methods of the nine shipped generator / smoother classes are re-translated on every run "
+                "(configurations LS_INIT_* of harness/src_functions.py -> Generated/SrcInits.v, one Proofs/C13Source_Init_<Class>.v each) and proved to "
+                "store their arguments, so the model parameter each method link takes for `self.<attr>` is the value the object was constructed with; "
+                "trusted: the translator only (no primitive): `self.<attr>` is a variable of the translation (attr_vars), the value of the translated __init__ is the tuple of the attributes when it ends; an attribute that is not declared is refused.")
+
 SIGNATURES = ("sample-segregating-lumps-small-samples", "nplate-stale-sample-ids")
 
 
